@@ -34,7 +34,9 @@ where
     let expr = expr.as_ref();
     let ascii_letters = "abcdefghijklmnopqrstuvwxyzABCDEFGHIJKLMNOPQRSTUVWXYZ";
     let normalized = expr
-        .replace(" ", "")
+        .chars()
+        .filter(|c| !c.is_whitespace())
+        .collect::<String>()
         .replace("^-", "^@")
         .replace("-", "+-")
         .replace("^@", "^-"); // ^- -> ^@ protects negative exponents
